@@ -17,6 +17,13 @@ def main():
     sel = (lambda m, p: a.only in p.name()) if a.only else None
     edges = collect_edges(MODULES, a.tier, cap=10 if quick else 40, depth2=1 if quick else 6,
                           select=sel, nshards=4)
+    # buffer-dimension operations versus windows (corpus D), and name clashes (corpus N)
+    DIM_OPS = ["rearrange_dim", "expand_dim", "divide_dim", "mult_dim", "resize_dim", "unroll_buffer", "lift_alloc",
+               "autolift_alloc", "sink_alloc", "stage_mem", "inline_window", "delete_buffer", "reuse_buffer", "simplify"]
+    edges += collect_edges(["harness.corpus.dimwin"], a.tier, cap=2 if quick else 6, ops=DIM_OPS, depth2=0 if quick else 2,
+                           select=sel, nshards=2)
+    edges += collect_edges(["harness.corpus.nameclash"], a.tier, cap=8 if quick else 32, depth2=0 if quick else 3,
+                           select=sel, nshards=2)
     with scratch() as d:
         if not a.only:
             # the repository's own tests, recorded: every derivation step they perform is an edge too
